@@ -146,3 +146,10 @@ Theorem c19_item_reload_is_source :
       Some (negb cached || (negb hasval && wv)).
 Proof. exact Decisions.item_reload_decision. Qed.
 Print Assumptions c19_item_reload_is_source.
+
+(* visitNodes reads the item key-only on the way down and re-reads it with exactly the caller's withValue *)
+Theorem c19_visit_item_reads_are_source :
+  filter (fun c => String.eqb (fst c) "nItemLoc.read") (calls_a 400 (body "Store.visitNodes")) =
+  [("nItemLoc.read", [GVar "t"; GVar "false"]); ("nItemLoc.read", [GVar "t"; GVar "withValue"])].
+Proof. exact Decisions.visit_item_reads. Qed.
+Print Assumptions c19_visit_item_reads_are_source.
